@@ -193,7 +193,7 @@ pub fn gen_cfg(r: &mut Rng, o: &GenOpts) -> Cfg {
         ctime,
         lang,
         // builder aliases (set_video_track / set_audio_track) are as good as video() / audio()
-        path: if r.chance(1, 4) { r.below(4) as u8 | if r.chance(1, 3) { 8 } else { 0 } } else { 0 },
+        path: if r.chance(1, 4) { r.below(4) as u8 | if r.chance(1, 3) { 8 } else { 0 } | if r.chance(1, 3) { 16 } else { 0 } } else { 0 },
     }
 }
 
